@@ -31,13 +31,12 @@ the executor's skip decision (`P/Skip.lean`, tied by `harness/skipcorr.py`):
 * **recycle_sound**: `Step.can_recycle` holds only if the four declared lists equal the recorded
   initial ones; a partial recycle (`Trellis.create` on a detached step) leaves the step PENDING
   with its source edges cut; a creator that loses a product loses its hash.
-* **redefinition_declares_env_partial** (finding `stale-env-dependency`, fixed by 7574d5c): the
-  partial recycle leaves the step without `env_var` rows (`partial_recycle_clears_env_rows`) and
-  `add_env_deps` on a step without rows records exactly the declared names, all non-dynamic
-  (`addEnvDeps_from_empty`, `addEnvDeps_complete`); for the full recycle `recycle_sound` gives the
-  equality of the recorded and declared names.  The end-to-end statement `RedefinitionDeclaresEnv`
-  (through `supply_files` and the product declarations of `define_step`, which do not touch
-  `env_var`) is kept as a `def`; the kernel correspondence compares the rows after every request.
+* **redefinition_declares_env** (finding `stale-env-dependency`, fixed by 7574d5c), the full
+  statement for every accepted `define_step` in all its branches: afterwards every non-dynamic
+  `env_var` row of the step is a declared variable.  Pieces: the partial recycle leaves the step
+  without rows (`partial_recycle_clears_env_rows`), `add_env_deps` on a step without rows records
+  exactly the declared names (`addEnvDeps_from_empty`, `addEnvDeps_complete`), the full recycle
+  keeps rows whose names `can_recycle` has compared with the declaration.
 
 Not proved (oracle only): `closed_unique`, `successful_build_closed` (DESIGN T1/T2), the
 propagation of `update_file_hashes` batches of several files (one file per request is proved;
@@ -552,14 +551,15 @@ theorem partial_recycle_pending (s s' : KState) (k : Key) (n : Node) (creator : 
               | some m => simp [hf] at hst; exact hst.symm
             · intro m hm; exact hm
 
-/-- What C01 needs of a redefinition: afterwards the non-dynamic `env_var` rows of the step are
-the declared variables, nothing left over from an earlier definition. -/
+/-- What C01 needs of a redefinition: after an accepted `define_step` the non-dynamic `env_var`
+rows of the step are among the declared variables: nothing is left over from an earlier
+definition of the step (finding `stale-env-dependency`, fixed by 7574d5c). -/
 def RedefinitionDeclaresEnv : Prop :=
   ∀ (s s' : KState) (cfg : KConfig) (creator : Key) (d : StepDecl) (chk : List String) (sk : Key) (n : Node),
     s.defineStep cfg creator d = .ok (s', chk) → stepLabel d.cmd d.workdir = some sk.label → sk.kind = .step →
     s'.find? sk = some n → ∀ e ∈ n.envs, e.2.2 = false → e.1 ∈ normPaths d.env
 
-/-- **redefinition_declares_env_partial**, creation branch, first half: the partial recycle of a
+/-- Creation branch, first half: the partial recycle of a
 step (`Trellis.create` on an existing detached step node) leaves it without any `env_var` row
 (`Step.initialize_row` deletes them; before the fix 7574d5c they survived and a redefinition that
 dropped a variable kept depending on it: finding `stale-env-dependency`). -/
@@ -644,6 +644,88 @@ theorem addEnvDeps_from_empty (cfg : KConfig) (n : Node) (names : List String) (
   rcases addEnvDeps_rows cfg n names e he with h | h
   · rw [hn] at h; cases h
   · exact h
+
+/-- **redefinition_declares_env**: for every state, every creator and every declaration, in all
+three branches of `define_step` (full recycle, partial recycle, fresh node). Full recycle: the
+rows are kept (`recycleStep_envsOf`) and `can_recycle` has checked that their names are the
+declared ones.  Otherwise: `Trellis.create` leaves the step without rows (`create_step_envsOf`),
+`supply_files` and the product declarations touch no `env_var` row of a step
+(`supplyFiles_envsOf`, `declareProducts_envsOf`), and `add_env_deps` writes the declared names. -/
+theorem redefinition_declares_env : RedefinitionDeclaresEnv := by
+  intro s s' cfg creator d chk sk n h hlabel hkind hfind e he hdyn
+  rw [defineStep_eq_body] at h
+  have henv : d.normalised.env = normPaths d.env := rfl
+  have hcmd : stepLabel d.normalised.cmd d.normalised.workdir = some sk.label := hlabel
+  generalize d.normalised = d' at h henv hcmd
+  unfold KState.defineBody at h
+  simp only [bind, Except.bind] at h
+  rw [← henv]
+  cases hg : s.defineGuard cfg creator d' with
+  | error err => simp [hg] at h
+  | ok v =>
+    simp only [hg] at h
+    obtain ⟨label, hl, hv⟩ := defineGuard_key s cfg creator d' v hg
+    have hsk : v = sk := by
+      rw [hcmd] at hl
+      have : sk.label = label := Option.some.inj hl
+      subst hv
+      cases sk with
+      | mk kind lab =>
+        simp only at hkind this
+        subst hkind this
+        rfl
+    subst hsk
+    have henvs : s'.envsOf v = some n.envs := by simp [KState.envsOf, hfind]
+    -- the creation branch
+    have hcreate : ∀ r, s.createStep cfg v creator d' = .ok r → r = (s', chk) → e.1 ∈ d'.env := by
+      intro r hr hrs
+      obtain ⟨n3, hn3, hrows⟩ := createStep_env_rows s cfg v creator d' r hkind hr
+      rw [hrs] at hrows
+      rw [henvs] at hrows
+      have he' : e ∈ (addEnvDeps cfg n3 d'.env).envs := by rw [← Option.some.inj hrows]; exact he
+      rcases addEnvDeps_rows cfg n3 d'.env e he' with h1 | h1
+      · rw [hn3] at h1; cases h1
+      · exact h1.1
+    cases hf : s.find? v with
+    | none =>
+      simp only [hf] at h
+      cases hng : s.newStepGuard v d' with
+      | error err => simp [hng] at h
+      | ok u =>
+        simp only [hng] at h
+        exact hcreate _ h rfl
+    | some n0 =>
+      simp only [hf] at h
+      split at h
+      · rename_i hrec
+        cases hr : s.recycleStep v creator d' n0 with
+        | error err => simp [hr] at h
+        | ok s1 =>
+          simp only [hr, pure, Except.pure, Except.ok.injEq, Prod.mk.injEq] at h
+          obtain ⟨hs1, _⟩ := h
+          subst hs1
+          have hsame := recycleStep_envsOf s s1 v creator d' n0 hr v
+          rw [henvs] at hsame
+          have hn0 : n.envs = n0.envs := by
+            simpa [KState.envsOf, hf] using hsame
+          -- `can_recycle`: the recorded non-dynamic names are the declared ones
+          have hcan := hrec.2
+          unfold KState.canRecycle at hcan
+          simp only [hf, decide_eq_true_eq] at hcan
+          have hnames := hcan.2.1
+          have : e.1 ∈ sortStrs ((n0.envs.filter fun e => !e.2.2).map (·.1)) := by
+            rw [mem_sortStrs, List.mem_map]
+            refine ⟨e, ?_, rfl⟩
+            rw [List.mem_filter]
+            exact ⟨hn0 ▸ he, by simp [hdyn]⟩
+          rw [hnames, mem_sortStrs] at this
+          exact this
+      · cases hng : s.newStepGuard v d' with
+        | error err => simp [hng] at h
+        | ok u =>
+          simp only [hng] at h
+          exact hcreate _ h rfl
+
 
 /-! Non-vacuity -/
 example : trySkip (⟨1, 2⟩ : Digests Nat) (some 1) (some 2) = .skipped ⟨1, 2⟩ := by decide
